@@ -243,3 +243,149 @@ def run(db, cx):
         cx.ob("C08.5-options-validated", "%s validates its FieldDriverOptions" % cls.split("::")[-1],
               ok, "", short(fs2[0].loc),
               why="the propagator's guarantees are stated for validated option ranges only")
+
+    # ------------------------------------------- 6. reported length = integrated length
+    driver_length_coherent(db, cx)
+
+
+DRS = "f:" + C + "DriverResult::state"
+DRL = "f:" + C + "DriverResult::step"
+
+
+def _last_defs(f, pos, match):
+    """Events (b, i, ev) that are the nearest `match`ing event on some backward path from pos."""
+    out = []
+    seen = set()
+    work = [(pos[0], pos[1])]
+    while work:
+        b, upto = work.pop()
+        evs = f.blocks[b]["ev"]
+        hit = None
+        for k in range(min(upto, len(evs)) - 1, -1, -1):
+            if match(evs[k]):
+                hit = (b, k, evs[k])
+                break
+        if hit:
+            if hit[:2] not in [o[:2] for o in out]:
+                out.append(hit)
+            continue
+        for p in f.preds(b):
+            if p not in seen:
+                seen.add(p)
+                work.append((p, 10 ** 9))
+    return out
+
+
+def driver_length_coherent(db, cx):
+    """K4 (provenance pairing): on every path to a `return` of a FieldDriver method that hands
+    back a (state, step) pair, the two components come from the same producer: one whole-record
+    assignment / initialisation from a call, or two writes in one block where the length is the
+    length argument of the stepper call that produced the state, or (adaptive integration) a
+    length accumulated from every sub-integration that redefines the state."""
+    names = [n for n in db.find(r"^celeritas::FieldDriver::(advance|accurate_advance|find_next_chord|"
+                                r"integrate_step|one_good_step)$")]
+    cx.floor("FieldDriver methods returning a (state, step) pair", len(names), 5)
+    ninst = 0
+    for n in sorted(names):
+        for f in db.get(n):
+            ninst += 1
+            tag = f.inst.split("FieldDriver<")[-1].rsplit("::", 1)[0][-36:]
+            for (rb, ri, rev) in f.events("return"):
+                p = rev.get("path")
+                if not p or not p["root"].startswith("l:"):
+                    cx.ob("C08.6-driver-length", "%s return @%s [%s]" % (n.split("::")[-1],
+                          short(rev["loc"]).split(":")[-1], tag), False,
+                          "return value is not a local (state, step) record: %s" % rev.get("t"),
+                          short(rev["loc"]))
+                    continue
+                root = p["root"]
+                var = root[2:]
+                prefix = list(p["chain"])
+
+                def classify(ev):
+                    """'state' | 'step' | 'both' | None for an event w.r.t. the returned record."""
+                    if ev["e"] == "def" and ev.get("var") == var and ev.get("kind") in ("decl", "assign", "opassign"):
+                        return "both"
+                    if ev["e"] != "write" or not ev.get("path") or ev["path"]["root"] != root:
+                        return None
+                    ch = ev["path"]["chain"]
+                    # normalise: a ChordSearch/Integration wrapper adds one `end` field
+                    if ch and ch[-1] == DRS:
+                        return "state"
+                    if ch and ch[-1] == DRL:
+                        return "step"
+                    if all(c.startswith("f:") and c.endswith("::end") for c in ch):
+                        return "both"
+                    return None
+
+                def producers(component):
+                    return _last_defs(f, (rb, ri), lambda e: classify(e) in (component, "both"))
+
+                def key(b, i, ev):
+                    k = classify(ev)
+                    if k == "both":
+                        return [("whole", b, i)]
+                    evs = f.blocks[b]["ev"]
+                    other = "step" if k == "state" else "state"
+                    partner = [e for e in evs if classify(e) == other]
+                    if partner:
+                        st = ev if k == "state" else partner[-1]
+                        ln = ev if k == "step" else partner[-1]
+                        lvars = local_refs(ln.get("refs", []))
+                        srefs = set(st.get("refs", []))
+                        for v in local_refs(st.get("refs", [])):
+                            for (_b, _i, d) in f.reaching_defs(v, (b, evs.index(st))):
+                                srefs |= set(d.get("refs", []))
+                        if lvars and lvars <= srefs and not ln.get("calls"):
+                            return [("pair", b)]
+                    if k == "step":
+                        # accumulated length: A starts at literal 0 and is `+=`-ed with the step of
+                        # every whole-record redefinition, in the block of that redefinition
+                        for a in local_refs(ev.get("refs", [])):
+                            defs = [(bb, ii, d) for (bb, ii, d) in f.events("def") if d.get("var") == a]
+                            accs = [(bb, ii, d) for (bb, ii, d) in defs if d.get("op") == "+="
+                                    and "F:" + C + "DriverResult::step" in d.get("refs", [])
+                                    and var in d.get("refs", [])]
+                            inits = [(bb, ii, d) for (bb, ii, d) in defs if d.get("kind") == "decl"]
+                            others = [d for (bb, ii, d) in defs if (bb, ii, d) not in accs
+                                      and (bb, ii, d) not in inits]
+                            if not accs or others or not all(d.get("lit") == "0" for (_b, _i, d) in inits):
+                                continue
+                            keys = []
+                            whole = [(bb, ii) for (bb, ii, e) in f.events() if classify(e) == "both"
+                                     and (e.get("calls") and not all(c.endswith("::Integration") or
+                                          c.endswith("::ChordSearch") or c.endswith("::DriverResult")
+                                          for c in e.get("calls", [])))]
+                            good = True
+                            for (bb, ii) in whole:
+                                if any(ab == bb and ai > ii for (ab, ai, _d) in accs):
+                                    keys.append(("whole", bb, ii))
+                                else:
+                                    good = False
+                            if good and keys:
+                                return keys
+                    return [("partial", b, i)]
+
+                ks = set()
+                kl = set()
+                for (b, i, ev) in producers("state"):
+                    ks |= set(key(b, i, ev))
+                for (b, i, ev) in producers("step"):
+                    kl |= set(key(b, i, ev))
+                ok = bool(ks) and ks == kl
+
+                def where(keys):
+                    out = []
+                    for k_ in sorted(keys, key=str):
+                        b = k_[1]
+                        ev = f.blocks[b]["ev"][k_[2]] if len(k_) > 2 else None
+                        out.append("%s@%s" % (k_[0], short(ev["loc"]).split(":", 1)[-1] if ev else "B%d" % b))
+                    return ", ".join(out)
+                cx.ob("C08.6-driver-length", "%s return @%s: state and step from the same producer [%s]"
+                      % (n.split("::")[-1], short(rev["loc"]).split(":")[-1], tag), ok,
+                      "state <- {%s}; step <- {%s}" % (where(ks), where(kl)), short(rev["loc"]),
+                      why="the driver must report the length it actually integrated: a state advanced "
+                          "by one length but labelled with another puts the end point off the field "
+                          "line by the difference and lets the propagator count distance it never "
+                          "travelled")
+    cx.floor("FieldDriver method instantiations", ninst, 10)
